@@ -170,6 +170,11 @@ func CmdWait(cmd *exec.Cmd) error {
 }
 
 func CmdRun(cmd *exec.Cmd) error {
+	if s := S; s != nil && s.cur != nil && s.RunFn != nil {
+		if handled, err := s.RunFn(cmd); handled {
+			return err
+		}
+	}
 	if err := CmdStart(cmd); err != nil {
 		return err
 	}
